@@ -323,6 +323,9 @@ pub fn run(cfg: &Cfg, rep: &mut Rep) {
     // exhaustive k*U+d
     let mut i = 0usize;
     for u in [1, NS_US, NS_MS, NS_S, NS_MIN, NS_H, NS_D, NS_W, NPC] {
+        if cfg.fuzz {
+            break;
+        }
         let mut ks: Vec<i128> = (1..=1000).collect();
         let mut k = 1000f64;
         while (k as i128) * u < ten_ky {
@@ -356,6 +359,9 @@ pub fn run(cfg: &Cfg, rep: &mut Rep) {
         spelling_cases(rep, &mut r, true);
     }
     for hh in 0..30u32 {
+        if cfg.fuzz {
+            break;
+        }
         for mm in 0..60u32 {
             i += 1;
             if i % n == sh {
@@ -365,6 +371,7 @@ pub fn run(cfg: &Cfg, rep: &mut Rep) {
     }
     let nrand = cfg.budget(4_000_000);
     for k in 0..nrand {
+        let k = cfg.k(k, &mut r);
         let c = crate::gen::rand_count_within(&mut r, ten_ky);
         check_dur(rep, c);
         if k % 8 == 0 {
